@@ -55,6 +55,10 @@ class Prop:
     trusted_extra = []
     exhaustive = False
     stay_in_limits = True    # shrinking keeps histories inside the property's quantifier
+    needs_spec = False       # run the extracted reference model (Spec.v) next to the implementation
+
+    def __init__(self):
+        self.spec_lines = {}
 
     def in_projection(self, op):
         return op in self.ops
@@ -147,6 +151,7 @@ REGISTRY = {c.pid: c for c in [C04]}
 
 
 def get(pid):
+    import props_core      # noqa: F401  (registers C01, C02, C03, C05, C06, C10)
     if pid not in REGISTRY:
         raise SystemExit("no check registered for %s" % pid)
     return REGISTRY[pid]()
